@@ -291,15 +291,15 @@ fn run_safety(cfg: &Cfg) -> ! {
 // ------------------------------------------------------------------ C06 (explicit-state)
 
 /// One scene of n triangles: explore every history of render() calls that submits each triangle exactly once.
-fn explore_order(scene: &Scene, r: &mut Report, scene_id: u64) {
+fn explore_order(scene: &Scene, r: &mut Report, scene_id: u64, discard: Discard) {
     let n = scene.tris.len();
     let sorts = [None, Some(DepthSort::FrontToBack), Some(DepthSort::BackToFront)];
     let px = (scene.bw * scene.bh) as usize;
-    let case = |hist: &Vec<(Vec<usize>, usize)>| obj! {"kind" => "order", "scene" => scene_json(scene), "history" => J::Arr(hist.iter().map(|(o, s)| obj! {"tris" => o.clone(), "sort" => *s}).collect())};
+    let case = |hist: &Vec<(Vec<usize>, usize)>| obj! {"kind" => "order", "discard" => format!("{discard:?}"), "scene" => scene_json(scene), "history" => J::Arr(hist.iter().map(|(o, s)| obj! {"tris" => o.clone(), "sort" => *s}).collect())};
     // per-triangle solo renders: coverage and depth (differential oracle)
     let mut solo: Vec<(Vec<u32>, Vec<f32>)> = vec![];
     for i in 0..n {
-        match render_scene(scene, Some(&[i]), Door::Render, TargetKind::Owned, &ctx_plain(), Discard::Never, None) {
+        match render_scene(scene, Some(&[i]), Door::Render, TargetKind::Owned, &ctx_plain(), discard, None) {
             Ok(o) => solo.push((o.color, o.depth.unwrap())),
             Err(p) => { r.violation(format!("render-panic|{}", short(scene)), p, case(&vec![(vec![i], 0)])); return; }
         }
@@ -334,7 +334,7 @@ fn explore_order(scene: &Scene, r: &mut Report, scene_id: u64) {
         for sub in subsets { for (si, sort) in sorts.iter().enumerate() {
             let ctx = Context { depth_sort: *sort, ..ctx_plain() };
             let depth_f: Vec<f32> = st.2.iter().map(|b| f32::from_bits(*b)).collect();
-            let out = match render_scene(scene, Some(&sub), Door::Render, TargetKind::Owned, &ctx, Discard::Never, Some((&st.1, &depth_f))) {
+            let out = match render_scene(scene, Some(&sub), Door::Render, TargetKind::Owned, &ctx, discard, Some((&st.1, &depth_f))) {
                 Ok(o) => o,
                 Err(p) => { let mut h = hist.clone(); h.push((sub.clone(), si)); r.violation(format!("render-panic|{}", short(scene)), p, case(&h)); return; }
             };
@@ -347,7 +347,7 @@ fn explore_order(scene: &Scene, r: &mut Report, scene_id: u64) {
                 if let Some((ec, ed)) = exp[p] {
                     if out.color[p] != ec || nd[p] != ed {
                         let kind = if sub.len() > 1 && si > 0 { "sorted-call" } else if hist.is_empty() && sub.len() == n { "single-call" } else { "split-calls" };
-                        r.violation(format!("order-dependence|{kind}|scene{scene_id}|{}", short(scene)), format!("after history {h:?} pixel {p} holds colour {:#x} depth {} but the nearest submitted fragment there has colour {ec:#x} depth {}", out.color[p], f32::from_bits(nd[p]), f32::from_bits(ed)), case(&h));
+                        r.violation(format!("order-dependence|{kind}|{discard:?}|scene{scene_id}|{}", short(scene)), format!("after history {h:?} pixel {p} holds colour {:#x} depth {} but the nearest submitted fragment there has colour {ec:#x} depth {}", out.color[p], f32::from_bits(nd[p]), f32::from_bits(ed)), case(&h));
                         return;
                     }
                 }
@@ -366,7 +366,7 @@ fn explore_order(scene: &Scene, r: &mut Report, scene_id: u64) {
         r.eval();
         let ctx = Context { depth_test: None, depth_sort: Some(DepthSort::BackToFront), ..ctx_plain() };
         let all: Vec<usize> = (0..n).rev().collect();
-        if let (Ok(a), Ok(b)) = (render_scene(scene, Some(&all), Door::Render, TargetKind::Owned, &ctx, Discard::Never, None), render_scene(scene, None, Door::Render, TargetKind::Owned, &ctx_plain(), Discard::Never, None)) {
+        if let (Ok(a), Ok(b)) = (render_scene(scene, Some(&all), Door::Render, TargetKind::Owned, &ctx, discard, None), render_scene(scene, None, Door::Render, TargetKind::Owned, &ctx_plain(), discard, None)) {
             r.transitions += 1;
             let full = expected((1 << n) - 1);
             if (0..px).any(|p| full[p].is_some() && a.color[p] != b.color[p]) {
@@ -421,12 +421,14 @@ fn run_order(cfg: &Cfg) -> ! {
     let ns = scenes.len() as u64;
     let mut rep = par_range(cfg, ns, |i, r| {
         let sc = Scene { tris: scenes[i as usize].iter().map(|&k| pool[k].clone()).collect(), bw: 8, bh: 8, vp: (0, 0, 8, 8) };
-        explore_order(&sc, r, i);
+        explore_order(&sc, r, i, Discard::Never);
+        // a checkerboard-discarding fragment shader: discarded fragments must leave colour AND depth alone in every history
+        if scenes[i as usize].len() <= 3 { explore_order(&sc, r, i, Discard::Parity); }
         r.sample(i, || obj! {"scene_triangles" => scenes[i as usize].clone(), "example_history" => "render([2,0], FrontToBack) ; render([1], None)"});
     });
     rep.set("scenes", ns);
     rep.finish(cfg, "model_checking",
-        "explicit-state search per scene of n<=4 (thorough <=6) triangles on an 8x8 Framebuf: state = (set of submitted triangles, colour buffer, depth buffer); transition = one real render() call with ANY non-empty ordered subset of the not yet submitted triangles x depth_sort in {None, FrontToBack, BackToFront}; states deduplicated on the full tuple; invariant in every state: each pixel holds colour and depth of the nearest (largest 1/w) submitted triangle covering it, where coverage and depth per triangle come from solo renders (differential oracle) and pixels with exactly equal depths are exempt; plus: depth test off + BackToFront == depth-buffered image for scenes with disjoint depth ranges. Scenes: all 2-, 3- and 4-subsets (thorough: also all 5-subsets and two 6-subsets) of a 14-triangle pool with overlapping, interpenetrating, partially clipped, culled-away and coincident-footprint members.",
+        "explicit-state search per scene of n<=4 (thorough <=6) triangles on an 8x8 Framebuf: state = (set of submitted triangles, colour buffer, depth buffer); transition = one real render() call with ANY non-empty ordered subset of the not yet submitted triangles x depth_sort in {None, FrontToBack, BackToFront}; states deduplicated on the full tuple; invariant in every state: each pixel holds colour and depth of the nearest (largest 1/w) submitted triangle covering it, where coverage and depth per triangle come from solo renders (differential oracle) and pixels with exactly equal depths are exempt; plus: depth test off + BackToFront == depth-buffered image for scenes with disjoint depth ranges; scenes of <= 3 triangles are explored a second time with a checkerboard-discarding fragment shader. Scenes: all 2-, 3- and 4-subsets (thorough: also all 5-subsets and two 6-subsets) of a 14-triangle pool with overlapping, interpenetrating, partially clipped, culled-away and coincident-footprint members.",
         &["per-triangle coverage/depth taken from solo renders (validated separately by C01/C04/C05)", "depth test Less, depth writes on"]);
 }
 
@@ -591,6 +593,16 @@ fn run_config(cfg: &Cfg) -> ! {
         for (j, b) in pool.iter().enumerate() { if (i + 2 * j) % 5 == 0 && i != j { scenes.push(Scene { tris: vec![a.clone(), b.clone()], bw, bh, vp }); if (i + j) % 3 == 0 { scenes.push(Scene { tris: vec![b.clone(), a.clone(), pool[(i + j) % pool.len()].clone()], bw, bh, vp }); } } }
     }
     scenes.push(Scene { tris: vec![], bw: 4, bh: 4, vp: (0, 0, 4, 4) });
+    // slivers that survive clipping and culling but span no pixel-row (or pixel-column) centre: they must still be counted
+    for (k, ys) in [[-0.35f32, -0.30, -0.15], [0.02, 0.10, 0.22], [-0.98, -0.90, -0.80]].iter().enumerate() {
+        for w in [1.0f32, 2.5] {
+            let t = STri { v: [[-0.5 * w, ys[0] * w, 0.1 * w, w], [0.5 * w, ys[1] * w, 0.2 * w, w], [0.0, ys[2] * w, 0.0, w]], a: PERMS[k] };
+            scenes.push(Scene { tris: vec![t.clone()], bw: 8, bh: 8, vp: (0, 0, 8, 8) });
+            scenes.push(Scene { tris: vec![STri { v: [t.v[0], t.v[2], t.v[1]], a: t.a }, pool[1].clone()], bw: 8, bh: 8, vp: (0, 0, 8, 8) });
+            let tx = STri { v: [[ys[0] * w, -0.5 * w, 0.1 * w, w], [ys[1] * w, 0.5 * w, 0.2 * w, w], [ys[2] * w, 0.0, 0.0, w]], a: PERMS[k] };
+            scenes.push(Scene { tris: vec![tx], bw: 8, bh: 8, vp: (0, 0, 8, 8) });
+        }
+    }
     let lat = image_lattice(true);
     let ln = lat.len();
     let extra = if quick { 60 } else { 400 };
@@ -654,7 +666,7 @@ fn main() {
                     let vp: Vec<u32> = c.get("vp").unwrap().as_arr().unwrap().iter().map(|x| x.as_u64().unwrap() as u32).collect();
                     check_safety(&t, SafetyCfg { proj: g("proj") as u8, bw: g("bw"), bh: g("bh"), vp: (vp[0], vp[1], vp[2], vp[3]), flags: g("flags"), sub: c.get("sub") == Some(&J::Bool(true)) }, r)
                 }
-                "order" | "painter" => explore_order(&scene_from(c.get("scene").unwrap()), r, 0),
+                "order" | "painter" => explore_order(&scene_from(c.get("scene").unwrap()), r, 0, if c.get("discard").and_then(|j| j.as_str()) == Some("Parity") { Discard::Parity } else { Discard::Never }),
                 "config" => check_config(&scene_from(c.get("scene").unwrap()), c.get("flags").unwrap().as_u64().unwrap() as u32, match c.get("discard").and_then(|j| j.as_str()).unwrap_or("") { "Always" => Discard::Always, "Parity" => Discard::Parity, _ => Discard::Never }, kind(c), r),
                 "solid" => check_solid_culling(c.get("solid").unwrap().as_u64().unwrap() as usize, c.get("view").unwrap().as_u64().unwrap() as usize, r),
                 "cull" => { let s = scene_from(c.get("scene").unwrap()); check_cull(&s.tris[0], s.bw, s.bh, s.vp, kind(c), r) }
